@@ -122,7 +122,10 @@ Clauses2(c) ==
                                       [k \in DOMAIN c.obs2.subs |-> <<c.obs2.subs[k].k, c.obs2.subs[k].vec, c.obs2.subs[k].readouts>>])
         ELSE {})
   \* ---- C15: views recorded by the harness from the result objects
-  \cup (IF (xs \/ c.site = "rerun") /\ ok THEN
+  \* an unnormalised distribution makes the readout sampler itself fail with a non-Jaqal exception
+  \cup F("normalised_sampling", c.site = "approx" /\ valid /\ o.cls \notin {"ok", "jaqal_error", "timeout"})
+  \* (site "approx": the same program over gate matrices that are unitary to 8 digits only; site "rerun": executed twice)
+  \cup (IF (xs \/ c.site \in {"rerun", "approx"}) /\ ok THEN
           F("freq_counts", \E k \in DOMAIN o.subs : \E v \in 0..(2 ^ NQ(c) - 1) :
                               o.subs[k].freq[v + 1] # Count(o.subs[k].readouts, v))
           \cup F("as_str", \E j \in DOMAIN o.readouts : o.readouts[j].str # BitsOf(o.readouts[j].value, NQ(c)))
